@@ -8,7 +8,9 @@ package c18
 import (
 	"bytes"
 	"encoding/json"
+	"errors"
 	"fmt"
+	"io"
 	"net/url"
 	"reflect"
 	"runtime"
@@ -16,6 +18,7 @@ import (
 	"sync"
 	"sync/atomic"
 	"testing"
+	"testing/iotest"
 
 	"google.golang.org/protobuf/proto"
 
@@ -421,6 +424,7 @@ func TestC18(t *testing.T) {
 
 	// (5) the CLI line reader over string-domain tuples with comments/blank lines around them.
 	var cli int64
+	readerCases := 0
 	{
 		fields := []string{"a", "ä", "%41", "a b", "", "+"}
 		var lines []string
@@ -510,20 +514,105 @@ func TestC18(t *testing.T) {
 		}
 	}
 
+	// the parse command reads its input through a reader: every environment answer of that reader
+	{
+		full := "n:o1#r@bob\n// comment\nn:o2#r@alice\n\nn:o3#r@(n:g#m)\n"
+		wantN := 3
+		runParse := func(in io.Reader) (got []*ketoapi.RelationTuple, err error) {
+			cmd := cmdrt.NewParseCmd()
+			var out, errb bytes.Buffer
+			cmd.SetIn(in)
+			cmd.SetOut(&out)
+			cmd.SetErr(&errb)
+			cmd.SetArgs([]string{"-", "--format", "json"})
+			if err := safe(cmd.Execute); err != nil {
+				return nil, err
+			}
+			if err := json.Unmarshal(out.Bytes(), &got); err != nil {
+				return nil, fmt.Errorf("output not JSON: %w", err)
+			}
+			return got, nil
+		}
+		ref, err := runParse(strings.NewReader(full))
+		if err != nil || len(ref) != wantN {
+			run.Violation("cli-parse", fmt.Sprintf("parse of a 3-relationship input: %d tuples, err %v", len(ref), err), nil)
+		}
+		// (a) the read fails after k bytes, every k: the command must fail, not return what it has
+		for k := 0; k <= len(full); k++ {
+			got, err := runParse(io.MultiReader(strings.NewReader(full[:k]), iotest.ErrReader(errors.New("verif: input/output error"))))
+			readerCases++
+			if err == nil {
+				run.Violation("cli-parse:read-error-ignored", fmt.Sprintf("the input fails with an I/O error after %d of %d bytes; the parse command succeeds and prints %d relationships (the last one %v)", k, len(full), len(got), lastTuple(got)), map[string]any{"fail_after_bytes": k, "input": full})
+				break
+			}
+		}
+		// (b) short reads: every chunk size 1..8 and one byte at a time
+		for chunk := 1; chunk <= 8; chunk++ {
+			got, err := runParse(&chunkReader{s: full, n: chunk})
+			readerCases++
+			if err != nil || !reflect.DeepEqual(got, ref) {
+				run.Violation("cli-parse:short-reads", fmt.Sprintf("input delivered %d byte(s) per read: %d tuples, err %v; want the %d of the whole input", chunk, len(got), err, len(ref)), map[string]any{"chunk": chunk})
+				break
+			}
+		}
+		// (c) long lines: a relationship whose object has L characters, followed by another relationship
+		for _, L := range []int{4095, 4096, 4097, 65535, 65536, 65537, 1 << 20} {
+			long := strings.Repeat("x", L)
+			got, err := runParse(strings.NewReader("n:" + long + "#r@bob\nn:o2#r@alice\n"))
+			readerCases++
+			if err != nil {
+				continue // rejecting is allowed; mis-parsing silently is not
+			}
+			if len(got) != 2 || got[0].Object != long || got[1].Object != "o2" {
+				run.Violation("cli-parse:long-line", fmt.Sprintf("a line with an object name of %d characters followed by a second line: the parse command succeeds with %d relationships (want both, unchanged, or an error)", L, len(got)), map[string]any{"object_length": L})
+				break
+			}
+		}
+	}
+
 	run.Assume("string-form domain = fields avoid the separators where the left-to-right reading of namespace:object#relation@subject makes them significant (no ':' in the namespace, no '#' in the object, no '@' in the relation, no ':' or parenthesis in a subject id, ...), the reading fixed by the repository's own decoding vectors",
 		"protobuf strings are valid UTF-8 (invalid UTF-8 cannot be marshalled and is outside 'well-formed protobuf')")
 	run.Finish(map[string]any{
-		"evaluations":         int(evals.Load() + qn.Load() + strs.Load() + cli),
-		"distinct_nontrivial": int(nontrivial.Load() + parsedN.Load()),
-		"rule":                "full product of the field alphabet over all tuple fields (subject id: 4 fields x full alphabet; subject set: 6 fields) x {json,url,proto wire} + 16 query shapes x values + every string of length <= bound over {a : # @ ( )}; non-trivial = a tuple with an empty/separator/escape-bearing field, or a string that FromString accepts",
-		"tuples":              int(evals.Load()),
+		"evaluations":             int(evals.Load() + qn.Load() + strs.Load() + cli),
+		"distinct_nontrivial":     int(nontrivial.Load() + parsedN.Load()),
+		"rule":                    "full product of the field alphabet over all tuple fields (subject id: 4 fields x full alphabet; subject set: 6 fields) x {json,url,proto wire} + 16 query shapes x values + every string of length <= bound over {a : # @ ( )}; non-trivial = a tuple with an empty/separator/escape-bearing field, or a string that FromString accepts",
+		"tuples":                  int(evals.Load()),
 		"tuples_in_string_domain": int(inDom.Load()),
-		"queries":             int(qn.Load()),
-		"strings":             int(strs.Load()),
-		"strings_parsed":      int(parsedN.Load()),
-		"cli_tuples":          int(cli),
-		"string_len_bound":    strLen,
-		"alphabet":            alphaFull,
-		"exhaustive":          true,
+		"queries":                 int(qn.Load()),
+		"strings":                 int(strs.Load()),
+		"strings_parsed":          int(parsedN.Load()),
+		"cli_tuples":              int(cli),
+		"cli_reader_cases":        readerCases,
+		"string_len_bound":        strLen,
+		"alphabet":                alphaFull,
+		"exhaustive":              true,
 	})
+}
+
+type chunkReader struct {
+	s string
+	n int
+}
+
+func (c *chunkReader) Read(p []byte) (int, error) {
+	if len(c.s) == 0 {
+		return 0, io.EOF
+	}
+	n := c.n
+	if n > len(c.s) {
+		n = len(c.s)
+	}
+	if n > len(p) {
+		n = len(p)
+	}
+	copy(p, c.s[:n])
+	c.s = c.s[n:]
+	return n, nil
+}
+
+func lastTuple(ts []*ketoapi.RelationTuple) string {
+	if len(ts) == 0 {
+		return "<none>"
+	}
+	return ts[len(ts)-1].String()
 }
